@@ -1,6 +1,7 @@
 """C14 — client-level check (monitors on the real client through H-client; Lean obligations from Props/C14.lean)."""
 from vlib import *
 import client_check as CC
+import replies_check
 
 
 def run(ctx):
@@ -11,7 +12,10 @@ def run(ctx):
                        "cancellation signals), a broker (acks with reason codes/properties, inbound QoS 0/1/2 messages, held-back replies), byte chunking, connection loss with partial delivery, "
                        "reconnects with changing Receive Maximum / Server Keep Alive / Session Present, virtual time, then a fault-free suffix and cancel() or async_disconnect; "
                        "the C14 monitor runs on every transcript; non-trivial = distinct scenario with >= 2 (re)connections and > 3 operations")
-    found = CC.report(ctx, "C14", fails)
+    found_s = replies_check.run(ctx, 300 if ctx.tier == "quick" else 20000)
+    found_s = replies_check.verdict_corr(ctx, 150 if ctx.tier == "quick" else 5000) or found_s
+    ctx.cov["rule"] += "; plus lock-step of the real detail::replies against the Lean model (and, for C14, SUBACK/UNSUBACK code lists through the real client against the Lean verdict model)"
+    found = found_s or CC.report(ctx, "C14", fails)
     report_broken_ties(ctx, found)
     if ctx.tier == "thorough" and not ctx.ties_broken:
         for m, msg in leanchecker(ctx.lean.get("modules", [])):
